@@ -166,6 +166,7 @@ type provCtx struct {
 	seen map[ssa.Value]bool
 	p    *Prov
 	n    int
+	env  map[*ssa.Parameter][]ssa.Value // actuals of the calls followed in this query
 }
 
 func (w *World) prov(v ssa.Value, o provOpts) *Prov {
@@ -216,6 +217,12 @@ func (c *provCtx) visit(v ssa.Value) {
 	case *ssa.Const:
 		c.root(Root{Kind: RConst, Val: x})
 	case *ssa.Parameter:
+		if acts, ok := c.env[x]; ok {
+			for _, a := range acts {
+				c.visit(a)
+			}
+			return
+		}
 		if c.o.bindParams && (c.o.bindStop == nil || !c.o.bindStop(x)) && c.bindParam(x) {
 			return
 		}
@@ -468,6 +475,15 @@ func (c *provCtx) visitCall(tuple ssa.Value, idx int) {
 		return
 	}
 	if c.o.followCalls && f.Blocks != nil && c.w.fnSet[f] && (c.o.opaque == nil || !c.o.opaque(f)) {
+		// parameters of the followed callee stand for this call's actuals
+		if c.env == nil {
+			c.env = map[*ssa.Parameter][]ssa.Value{}
+		}
+		for i, a := range cc.Args {
+			if i < len(f.Params) {
+				c.env[f.Params[i]] = append(c.env[f.Params[i]], a)
+			}
+		}
 		for _, b := range f.Blocks {
 			if ret, ok := lastInstr(b).(*ssa.Return); ok {
 				if idx < 0 {
